@@ -178,7 +178,30 @@ def r_discharge(sh, rep):
     val = find_enum(sh.file(V), "Value")
     term = find_enum(sh.file(A), "Term")
     vt = find_fn(fd, "value_as_term")
-    m = next(matches_in(vt["body"], lambda e: e["k"] == "Path" and e["p"] == "value"))
+    m = next(matches_in(vt["body"], lambda e: e["k"] == "Path" and e["p"] == "value"), None)
+    if m is None:
+        # the entry point may delegate to a worker in the same file: follow one call
+        for c in calls_in(vt["body"]):
+            try:
+                cand = find_fn(fd, last(call_name(c) or ""))
+            except AnchorMissing:
+                continue
+            m = next(matches_in(cand["body"], lambda e: e["k"] == "Path" and e["p"] == "value"), None)
+            if m is not None:
+                vt = cand
+                break
+    if m is None:
+        raise AnchorMissing("the match on the value in value_as_term (or the worker it calls)")
+    # read-back is a function of (binder depth, environment, term): state threaded through it (a memo table, a counter)
+    # outlives the environment it was computed in — every captured value brings its own environment
+    stateful = []
+    for q, fn_ in all_fns(fd):
+        for i in fn_.get("sig", {}).get("inputs", []):
+            ty = i.get("ty")
+            tsrc = re.sub(r"\s+", "", ty) if isinstance(ty, str) else (sh.nsrc(D, ty) if isinstance(ty, dict) and "s" in ty else "")
+            if tsrc.startswith("&mut") or re.match(r"^&'\w+mut", tsrc):
+                stateful.append((q, tsrc))
+    rep.check(not stateful, "R03-DISCHARGE", "read-back#no-state-across-environments", sh.loc(D, vt), "read-back threads mutable state (%s) through value_as_term / with_env: whatever it remembers about one closure's environment (a slot already read back, say) is consulted again inside another closure's environment, where the same slot holds another value" % ", ".join("%s: %s" % x for x in stateful[:3]), sample={"functions": len(list(all_fns(fd)))})
     heads = {v for v, arm, alt in arm_table(m)}
     for v in val["variants"]:
         rep.check(v["name"] in heads, "R03-DISCHARGE", "value_as_term#%s" % v["name"], sh.loc(D, vt), "Value::%s has no explicit arm in value_as_term" % v["name"], nontrivial=False)
